@@ -75,6 +75,11 @@ def monitorStep (P : Params) (prev : Obs) (ev : Ev) (o : Obs) (adm : List (Nat Ã
   for h in hs do
     if (h.getArrVal? 0).toOption == some (Json.str "sc") && (h.getArrVal? 1).toOption == (h.getArrVal? 2).toOption then
       v := v.mon "C15" "hook_prev_ne_to" idx
+  -- the success streak is per state: successes counted before a state change are gone after it, so that "closes exactly when
+  -- the reset rule holds for consecutive successes" means consecutive within the current half-open period
+  -- (the failure streak is deliberately kept across half-open â†’ open: it drives the back-off)
+  if o.gen != prev.gen && o.succ != 0 then
+    v := v.mon "C15" "state_change_clears_success_streak" idx s!"after the change {o.succ} successes are still counted"
   match ev with
   | .start _ =>
     if o.r == "disabled" then pure ()
